@@ -67,6 +67,17 @@ type Input struct {
 	// ShadowPkg: name of a sibling package declaring `type Item int`; slice/map fields may use <ShadowPkg>.Item as
 	// element type (A resp. B = "<ShadowPkg>.Item").  o, i, in, out, key, val collide with the template locals.
 	ShadowPkg string `json:"shadow_pkg,omitempty"`
+	// Base: GeneratorArgs.OutputFileBaseName of every run ("" = the conventional "zz_generated"); the generated file is
+	// <Base>.deepcopy.go.  The name must not be a prefix of a hand-written file's name (gengo sweeps "<Base>.*" files it
+	// did not write), i.e. not "types" or "doc".
+	Base string `json:"base,omitempty"`
+}
+
+func (in *Input) base() string {
+	if in.Base == "" {
+		return "zz_generated"
+	}
+	return in.Base
 }
 
 func (in *Input) decl(name string) *Decl {
